@@ -179,9 +179,12 @@ def _eval_crash(ctx, case):
     # position of the lattice text write inside close
     close_i = len(ops) - 1 if ops and ops[-1][0] == "x" else None
     close_writes = [s for s in snaps if s[0] == close_i and s[1] is not None] if close_i is not None else []
-    lattice_w = None
-    if close_writes:
-        lattice_w = len(close_writes) - 2      # [back-fill?] lattice terminator
+    # where the box line starts in the complete file: a crash point inside close() is "before the box" as long as the
+    # file is not LONGER than that (the count back-fill rewrites bytes in place).  Judged by bytes, not by the number
+    # of `write` calls close() happens to make (benign change C14-2: box text and terminator in one call)
+    box_start = None
+    if close_i is not None and final.endswith(b"\n"):
+        box_start = final[:-1].rfind(b"\n") + 1
     complete, _ = _verdict(ppath, final)
 
     if valid:
@@ -220,7 +223,7 @@ def _eval_crash(ctx, case):
             v, _ = _verdict(ppath, data)
             seen[data] = v
         where = ("after-op-" + ops[oi][0]) if wi is None else ("in-" + ops[oi][0])
-        before_box = (close_i is None or oi < close_i or (wi is not None and lattice_w is not None and wi < lattice_w)
+        before_box = (close_i is None or oi < close_i or (box_start is not None and len(data) <= box_start)
                       or (oi == close_i and wi is None and not close_writes))
         ctx.case({"crash": digest, "at": [oi, wi]}, nontrivial=nrec >= 1 and valid,
                  sample={"kind": "crash", "ops_head": ops[:3], "nops": len(ops), "at": [oi, wi], "verdict": v[:2]})
@@ -251,9 +254,15 @@ def _eval_crash(ctx, case):
         if op[0] == "x":
             ws = [d for (oi, wi, d) in snaps if oi == i and wi is not None]
             prev = after_op[i - 1] if i > 0 else b""
-            if errs[i] is None and len(ws) >= 2:
+            if errs[i] is None and len(ws) >= 2 + (0 if declared else 1):
                 expect.append(ws[-3] if len(ws) >= 3 else prev)     # count back-filled / verified
                 expect.append(ws[-2])                                 # lattice text
+            elif errs[i] is None and ws:
+                # close() made fewer `write` calls than the model has parts: the intermediate states do not exist
+                # on disk, nothing to compare them with (the state after the op is compared below)
+                ctx.count("close-parts-coarser-than-modelled")
+                expect.append(None)
+                expect.append(None)
             elif errs[i] is None:
                 expect.append(prev)                                   # closing an empty file
             else:
